@@ -1,6 +1,9 @@
 package io
 
-import stdio "io"
+import (
+	"bytes"
+	stdio "io"
+)
 
 // C01/C05/C11: Writer -> shared-stream tape -> Reader composition with NONE/NONE codecs (real encode/decode,
 // real task-local bitstreams, real framing), symbolic block contents and symbolic total length.
@@ -158,13 +161,13 @@ func H05_error() {
 	JR := vhParam("jobsR", 2)
 	M := vhParam("maxBlocks", 3)
 	R := vhB
-	nb := vhCase("blocks", 1, M)
+	nb := vhCase("blocks", vhParam("blocksLo", 1), M)
 	N := nb * vhB
 	data := vhArb("data", N)
 	hint := vhI64("sizeHint")
 	vhAssume(hint >= 0)
 	tape := vhWriteTape(data, JW, 32, hint)
-	k := vhCase("badBlock", 1, M)
+	k := vhCase("badBlock", vhParam("badLo", 1), M)
 	if k > nb {
 		return
 	}
@@ -193,6 +196,14 @@ func H05_error() {
 		if err != nil && err != stdio.EOF {
 			sawErr = true
 		}
+		// the tasks' scratch (pre-inverse-transform) buffers never hold caller-visible data: poison them, so that a
+		// Read that wrongly serves bytes from them is visible even though NONE makes both buffers carry equal bytes
+		for k := JR; k < 2*JR; k++ {
+			b := r.buffers[k].Buf
+			for i := 0; i < len(b) && i < 2*vhB; i += 64 {
+				b[i] ^= 0xFF
+			}
+		}
 		if err == stdio.EOF && n == 0 {
 			if !sawErr {
 				vhReach("eof-before-error")
@@ -208,4 +219,56 @@ func H05_error() {
 		vhReach("prefix-checked")
 	}
 	vhReach("checked")
+}
+
+// H05_error_api: native-only twin of H05_error through the public API with a REAL transform (LZ), so that the
+// tasks' scratch buffers differ from the decoded data: 6 compressible blocks, checksum 32, reader jobs 2, one payload
+// byte of block 4 damaged (located by parsing the container). Every byte delivered by any Read call, before or after
+// the error, must equal the original byte at that position, and nothing from block 4 on may be delivered.
+func H05_error_api() {
+	const nblocks = 6
+	data := make([]byte, nblocks*vhB)
+	for i := range data {
+		data[i] = byte('a' + (i/7)%13 + (i/vhB)*3%5)
+	}
+	comp, err := vhCompress(data, nil, "LZ", "NONE", uint(vhB), 1, 32, 0)
+	vhAssert(err == nil, "api-compress")
+	// locate block records: header = 160 bits (no size hint), then per block: 5 bits (lw-3), lw bits (length in bits), payload
+	pos := uint64(160)
+	getBits := func(p uint64, n uint) uint64 {
+		v := uint64(0)
+		for i := uint(0); i < n; i++ {
+			bit := (comp[(p+uint64(i))>>3] >> (7 - ((p + uint64(i)) & 7))) & 1
+			v = v<<1 | uint64(bit)
+		}
+		return v
+	}
+	target := uint64(0)
+	for b := 1; b <= nblocks; b++ {
+		lw := uint(getBits(pos, 5)) + 3
+		ln := getBits(pos+5, lw)
+		pos += 5 + uint64(lw)
+		if b == 4 {
+			target = pos + ln/2
+		}
+		pos += ln
+	}
+	comp[target>>3] ^= 0x10
+	r, err := NewReader(vhCloserReader{bytes.NewReader(comp)}, 2)
+	vhAssert(err == nil, "api-reader")
+	out := make([]byte, 0, len(data))
+	buf := make([]byte, 700)
+	sawErr := false
+	for calls := 0; calls < 40; calls++ {
+		n, e := r.Read(buf)
+		out = append(out, buf[:n]...)
+		if e != nil && e != stdio.EOF {
+			sawErr = true
+		}
+	}
+	vhAssert(sawErr, "api-damage-reported")
+	vhAssert(len(out) <= 3*vhB, "nothing-delivered-from-failed-block-or-beyond")
+	for i := range out {
+		vhAssert(out[i] == data[i], "nothing-delivered-from-failed-block-or-beyond")
+	}
 }
